@@ -20,9 +20,9 @@ and the selector are replaced by a small "kernel" model that the harness drives 
 * `lose_connection(exc)` is a fatal socket error (`_fatal_error` -> `_force_close`), `abort()`/`close()` as in asyncio:
   `connection_lost` is always delivered with `loop.call_soon`.
 
-One deliberate difference: `writelines()` calls `_maybe_pause_protocol()` when data stays buffered (CPython >= 3.12.4
-behaviour, gh-118950); 3.12.1's selector transport forgets to, which is a stdlib defect, not the library's.  Set
-`writelines_pauses=False` to get the 3.12.1 behaviour.
+One deliberate difference: `writelines()` calls `_maybe_pause_protocol()` when data stays buffered, as `write()`
+does and as later CPython releases do; the 3.12.1 selector transport installed here forgets to (so a real
+`writelines()` never pauses the protocol).  Set `writelines_pauses=False` to get the 3.12.1 behaviour.
 
 Nothing here reads a clock or an RNG; everything is driven by harness calls, so schedules are replayable.
 """
@@ -250,6 +250,10 @@ class _FakeBase(_transports._FlowControlMixin):
         pass
 
     # -- harness
+    def wants_write(self) -> bool:
+        """a write-ready callback is registered with the (fake) selector"""
+        return self._writer_registered and not self._conn_lost
+
     def lose_connection(self, exc: BaseException | None) -> None:
         """a fatal socket error (e.g. ECONNRESET seen by recv/send) — or `abort()` when exc is None"""
         if self.connection_lost_called:
@@ -678,8 +682,10 @@ class FakeAsyncioDatagramTransport(_FakeBase, asyncio.DatagramTransport):
 
     # ---- harness
     def pump(self) -> int:
-        """the selector reports the socket writable; returns the number of datagrams handed to the kernel"""
-        if not self._writer_registered or not self._buffer or self._conn_lost:
+        """the selector reports the socket writable; returns the number of datagrams handed to the kernel.
+        (`_sendto_ready` can leave the writer registered with an empty buffer after a non-fatal send error; the next
+        writable event then finishes a pending close, exactly as in asyncio)"""
+        if not self._writer_registered or self._conn_lost:
             return 0
         before = len(self.wire)
         self._sendto_ready()
